@@ -34,8 +34,10 @@ package gzip
 //@   requires grw != nil && grw.ResponseWriter != nil && grw.contentTypes != nil
 //@   assigns grw.writer, grw.gzipWriter, lastStatus, statusWrites, mapsOf(map[string][]string), hdr1, hdrHas, inPool, gzClosed, gzTarget
 //@   ensures nopanic
-//@   // the status code is forwarded unchanged, on every call
-//@   ensures lastStatus == code && statusWrites == old(statusWrites) + 1
+//@   // the status code is forwarded unchanged: every informational one and the first final one (a further final status is
+//@   // ignored by net/http anyway: forwarding it unchanged or not at all are both fine)
+//@   ensures informational(code) || old(grw.writer) == nil ==> lastStatus == code && statusWrites == old(statusWrites) + 1
+//@   ensures !informational(code) && old(grw.writer) != nil ==> (lastStatus == code && statusWrites == old(statusWrites) + 1) || (lastStatus == old(lastStatus) && statusWrites == old(statusWrites))
 //@   // an informational status (1xx other than 101) is not the response: it is passed on and decides nothing - the
 //@   // headers that count are those in place when the final status (or the first body byte) is written
 //@   ensures informational(code) ==> grw.writer == old(grw.writer) && grw.gzipWriter == old(grw.gzipWriter) && hdr1 == old(hdr1) && hdrHas == old(hdrHas)
